@@ -174,6 +174,34 @@ fn main() {
                 writeln!(w, "E {}", sc.sid).unwrap();
             }
         }
+        "stack" => {
+            // like "seq", but every session runs on its own thread whose stack has the given size (KiB): a library
+            // call that needs more stack than that kills the process (guard page), which the call-before-invoke log
+            // attributes to the call
+            let kib: usize = parts.get(1).and_then(|s| s.parse().ok()).unwrap_or(64);
+            for sc in &scripts {
+                writeln!(w, "{}", sc.header).unwrap();
+                let (wr, trace) = (&mut w, &trace);
+                std::thread::scope(|s| {
+                    let h = std::thread::Builder::new().stack_size(kib * 1024).spawn_scoped(s, move || {
+                        ops::install_panic_hook();
+                        let mut sess = Session::new(&sc.sid, sc.ids.0, sc.ids.1, sc.ids.2);
+                        for c in &sc.calls {
+                            writeln!(wr, "{}", c.raw).unwrap();
+                            wr.flush().unwrap();
+                            stamp(trace, &c.id, 1);
+                            let (extra, r) = sess.exec(c);
+                            for e in extra {
+                                writeln!(wr, "{}", e).unwrap();
+                            }
+                            writeln!(wr, "{}", r).unwrap();
+                        }
+                    });
+                    h.expect("spawn").join().ok();
+                });
+                writeln!(w, "E {}", sc.sid).unwrap();
+            }
+        }
         "perm" | "interleave" => {
             let seed: u64 = parts.get(1).and_then(|s| s.parse().ok()).unwrap_or(1);
             let mut g = lang::SplitMix(seed);
